@@ -378,7 +378,15 @@ DJV_CMD(create_or_load, "create_or_load")
     bool created = false;
     e::engine_schema loaded{};
     if (a.at(2) == "fresh") fs::create_directories(S.dir);
-    S.db = e::create_or_load_database(S.dir, sch, created, loaded);
+    if (S.sameref)
+    {
+        // one variable for the requested schema (const reference in) and the loaded schema (reference out)
+        e::engine_schema v = sch;
+        S.db = e::create_or_load_database(S.dir, v, created, v);
+        loaded = v;
+    }
+    else
+        S.db = e::create_or_load_database(S.dir, sch, created, loaded);
     S.schema = created ? a.at(1) : name_of(loaded);
     S.disk = true;
     return std::string("created=") + (created ? "1" : "0") + " schema=" + S.schema;
